@@ -158,11 +158,7 @@ func syncerOf(c *rig.Compactor) *compact.Syncer {
 // checkSecondUser binds the model of the second user to the source: the progress loop of runCompact calls
 // sy.SyncMetas on the Syncer that the BucketCompactor got and returns when it fails with a retriable error.
 func checkSecondUser(t *testing.T) {
-	repo := os.Getenv("VERIF_REPO")
-	if repo == "" {
-		repo = "/repo"
-	}
-	src, err := os.ReadFile(repo + "/cmd/thanos/compact.go")
+	src, err := vlib.ReadSource("cmd/thanos/compact.go")
 	if err != nil {
 		t.Fatalf("HARNESS-ERROR %v", err)
 	}
